@@ -213,6 +213,17 @@ def check_total(expr, a, b, c, position):
                 continue
             if not isinstance(r, int):
                 return False
+        # a referenced constant that could not be evaluated is stored as None in the constants table (model.cross_reference):
+        # using it inside a larger expression must again end in an int or calc.ParseError
+        for unknown in ('A', 'B'):
+            env2 = dict(env)
+            env2[unknown] = None
+            try:
+                r = calc.eval(' '.join(toks), env2)
+            except calc.ParseError:
+                continue
+            if not isinstance(r, int):
+                return False
     return True
 
 
